@@ -920,9 +920,11 @@ package gmars
 // functions of the symbol / expression machinery, not (yet) verified: assumed contracts
 //@ trusted (*compiler).expandExpression
 //@   modifies nothing
+// exprVal: the value go/types.Eval gives to the token sequence (uninterpreted)
+//@ uf exprVal(toks Slice) int
 //@ trusted evaluateExpression
 //@   modifies nothing
-//@   ensures result.1 == nil ==> 0 - 2147483648 <= result.0 && result.0 <= 2147483647
+//@   ensures result.1 == nil ==> 0 - 2147483648 <= result.0 && result.0 <= 2147483647 && result.0 == exprVal(expr)
 //@ trusted (*compiler).loadSymbols
 //@   modifies c.values, c.labels, c.startExpr
 //@ trusted (*compiler).evaluateAssertions
@@ -946,6 +948,9 @@ package gmars
 //@   ensures [C03] result.1 == nil && c.config.Mode != ICWS88 && in.amode == "" ==> result.0.AMode == ite(len(in.b) == 0 && result.0.Op == DAT, IMMEDIATE, DIRECT)
 //@   ensures [C03] result.1 == nil && c.config.Mode != ICWS88 && in.bmode == "" && len(in.b) != 0 ==> result.0.BMode == DIRECT
 // the lone-operand rule: DAT x == DAT #0, x ; any other opcode keeps x in the A-field with $0 in B
+// both fields are the expression values reduced into [0, M)
+//@   ensures [C07] result.1 == nil && len(in.b) != 0 ==> result.0.A == modM(exprVal(aExpr), c.m) && result.0.B == modM(exprVal(bExpr), c.m)
+//@   ensures [C07] result.1 == nil && len(in.b) == 0 ==> ite(result.0.Op == DAT, result.0.B, result.0.A) == modM(exprVal(aExpr), c.m)
 //@   ensures [C03] result.1 == nil && len(in.b) == 0 && result.0.Op == DAT ==> result.0.AMode == IMMEDIATE && result.0.A == 0
 //@   ensures [C03] result.1 == nil && len(in.b) == 0 && result.0.Op != DAT ==> result.0.B == 0
 
